@@ -27,7 +27,7 @@ def build(case):
         a['conf'].insert(0, other)
     elif scn.get('conf2') == 'validSecond':
         a['conf'].append(other)
-    a['cond'] = {'nb': t(vals['cNB']), 'nooa': t(vals['cNOOA']), 'audiences': [[env.SP]]}
+    a['cond'] = {'nb': t(vals['cNB']), 'nooa': t(vals['cNOOA']), 'audiences': [[env.SP]] if scn.get('condKids', 'audience') == 'audience' else []}
     a['authn'] = {'instant': env.ts(now - 10, sp), 'session_nooa': t(vals['sess'])}
     if scn.get('stmt2', 'none') != 'none':
         a['authn2'] = {'instant': env.ts(now - 10, sp), 'session_nooa': env.ts(now + (3 * 86400 if scn['stmt2'] == 'valid' else -3 * 86400), sp)}
@@ -76,7 +76,7 @@ def main():
         raise fw.Machinery('SPTime.tla: pipeline violates the contract: %s\n%s' % (res.violated, res.text[-2000:]))
     cases = sorted(res.cases, key=lambda c: json.dumps(c['scn'], sort_keys=True))
     if not thorough:
-        cases = [c for c in cases if abs(c['scn']['d']) > 10**6 or c['scn']['stmt2'] != 'none' or c['scn']['conf2'] != 'none' or (c['scn']['tz'] != 'UTC' and chk.rng.random() < 0.5) or chk.rng.random() < 0.25]
+        cases = [c for c in cases if abs(c['scn']['d']) > 10**6 or c['scn'].get('condKids') == 'none' or c['scn']['stmt2'] != 'none' or c['scn']['conf2'] != 'none' or (c['scn']['tz'] != 'UTC' and chk.rng.random() < 0.5) or chk.rng.random() < 0.25]
     nacc = 0
     for case, obs, err in fw.pmap(replay, cases, init=spc.init_worker, chunk=64):
         if err:
